@@ -157,7 +157,7 @@ class Contract:
     allowed_raises: tuple = ()
     frame = "pure"
     theory = "exact"
-    inline_only = False                # helper contracts that are only used to *verify* the function, not at call sites
+    inline_only = False                # the contract is verified against the function, but callers keep reading the body (not modular)
     acyclic_inputs = ()
 
     # ---- variants of the input shapes
